@@ -186,8 +186,14 @@ def run(ctx):
         corpus.setdefault(bytes(rnd.getrandbits(8) for _ in range(rnd.choice([0, 1, 2, 3, 5, 9, 40, 300]))), "random")
         corpus.setdefault(struct.pack(">H", rnd.choice([B.seq_t, B.map_t, B.string_t, B.int8_t, 130])) + bytes(rnd.getrandbits(8) for _ in range(rnd.randint(0, 30))), "random-typed")
     rows, meta = [], []
-    for data, kind in corpus.items():
-        rows.append(observe(S, data, clean))
+    for k, (data, kind) in enumerate(corpus.items()):
+        row = observe(S, data, clean)
+        if k % 4 == 0:
+            # decoding is a function of the bytes: the same input again, in the same process, ends the same way with the same amount of work
+            again = observe(S, data, clean)
+            if (again[1], again[2], again[5]) != (row[1], row[2], row[5]):
+                row[1] = "unstable (%s/%d calls, then %s/%d calls)" % (row[1], row[2], again[1], again[2])
+        rows.append(row)
         meta.append((kind, data))
         ctx.case(None)
     # the handshake decoders the server runs on unauthenticated input
